@@ -21,7 +21,6 @@ import (
 	"github.com/XiaoMi/Gaea/parser/format"
 	driver "github.com/XiaoMi/Gaea/parser/tidb-types/parser_driver"
 	"github.com/XiaoMi/Gaea/proxy/router"
-	"github.com/XiaoMi/Gaea/util"
 )
 
 // BetweenExprDecorator decorate BetweenExpr
@@ -133,7 +132,7 @@ func getShardBetweenExprRouteResult(rule router.Rule, n *ast.BetweenExpr) ([]int
 	if !ok {
 		return nil, fmt.Errorf("n.Left is not a ValueExpr, type: %T", n.Left)
 	}
-	leftValue, err := util.GetValueExprResult(leftValueExpr)
+	leftValue, leftRoutable, err := getShardingCompareValue(rule, leftValueExpr)
 	if err != nil {
 		return nil, fmt.Errorf("get value from n.Left error: %v", err)
 	}
@@ -142,9 +141,13 @@ func getShardBetweenExprRouteResult(rule router.Rule, n *ast.BetweenExpr) ([]int
 	if !ok {
 		return nil, fmt.Errorf("n.Left is not a ValueExpr, type: %T", n.Right)
 	}
-	rightValue, err := util.GetValueExprResult(rightValueExpr)
+	rightValue, rightRoutable, err := getShardingCompareValue(rule, rightValueExpr)
 	if err != nil {
 		return nil, fmt.Errorf("get value from n.Right error: %v", err)
+	}
+	if !leftRoutable || !rightRoutable {
+		// a bound the rule cannot place says nothing about where the rows are
+		return rule.GetSubTableIndexes(), nil
 	}
 
 	start, err := rule.FindTableIndex(leftValue)
